@@ -150,9 +150,18 @@ func (gr GithubReporter) List(ctx context.Context, _ any) ([]ExistingComment, er
 	defer cancel()
 
 	slog.Debug("Getting the list of pull request comments", slog.Int("pr", gr.prNum))
-	existing, _, err := gr.client.PullRequests.ListComments(reqCtx, gr.owner, gr.repo, gr.prNum, nil)
-	if err != nil {
-		return nil, fmt.Errorf("failed to list pull request reviews: %w", err)
+	var existing []*github.PullRequestComment
+	opts := &github.PullRequestListCommentsOptions{ListOptions: github.ListOptions{}}
+	for {
+		page, resp, err := gr.client.PullRequests.ListComments(reqCtx, gr.owner, gr.repo, gr.prNum, opts)
+		if err != nil {
+			return nil, fmt.Errorf("failed to list pull request reviews: %w", err)
+		}
+		existing = append(existing, page...)
+		if resp == nil || resp.NextPage == 0 {
+			break
+		}
+		opts.Page = resp.NextPage
 	}
 
 	comments := make([]ExistingComment, 0, len(existing))
@@ -243,9 +252,18 @@ func (gr GithubReporter) findExistingReview(ctx context.Context) (*github.PullRe
 	reqCtx, cancel := gr.reqContext(ctx)
 	defer cancel()
 
-	reviews, _, err := gr.client.PullRequests.ListReviews(reqCtx, gr.owner, gr.repo, gr.prNum, nil)
-	if err != nil {
-		return nil, err
+	var reviews []*github.PullRequestReview
+	opts := &github.ListOptions{}
+	for {
+		page, resp, err := gr.client.PullRequests.ListReviews(reqCtx, gr.owner, gr.repo, gr.prNum, opts)
+		if err != nil {
+			return nil, err
+		}
+		reviews = append(reviews, page...)
+		if resp == nil || resp.NextPage == 0 {
+			break
+		}
+		opts.Page = resp.NextPage
 	}
 
 	for _, review := range reviews {
@@ -308,9 +326,18 @@ func (gr GithubReporter) listPRFiles(ctx context.Context) ([]*github.CommitFile,
 	defer cancel()
 
 	slog.Debug("Getting the list of modified files", slog.Int("pr", gr.prNum))
-	files, _, err := gr.client.PullRequests.ListFiles(reqCtx, gr.owner, gr.repo, gr.prNum, nil)
-	if err != nil {
-		return nil, fmt.Errorf("failed to list pull request files: %w", err)
+	var files []*github.CommitFile
+	opts := &github.ListOptions{}
+	for {
+		page, resp, err := gr.client.PullRequests.ListFiles(reqCtx, gr.owner, gr.repo, gr.prNum, opts)
+		if err != nil {
+			return nil, fmt.Errorf("failed to list pull request files: %w", err)
+		}
+		files = append(files, page...)
+		if resp == nil || resp.NextPage == 0 {
+			break
+		}
+		opts.Page = resp.NextPage
 	}
 	return files, nil
 }
@@ -400,16 +427,25 @@ func formatGHReviewBody(version string, summary Summary, showDuplicates bool) st
 func (gr GithubReporter) generalComment(ctx context.Context, body string) error {
 	// Don't post the same general comment again on every run: look for an identical one first.
 	listCtx, listCancel := gr.reqContext(ctx)
-	existing, _, err := gr.client.Issues.ListComments(listCtx, gr.owner, gr.repo, gr.prNum, nil)
-	listCancel()
-	if err == nil {
+	issueOpts := &github.IssueListCommentsOptions{ListOptions: github.ListOptions{}}
+	for {
+		existing, resp, err := gr.client.Issues.ListComments(listCtx, gr.owner, gr.repo, gr.prNum, issueOpts)
+		if err != nil {
+			break
+		}
 		for _, ec := range existing {
 			if ec.GetBody() == body {
+				listCancel()
 				slog.Debug("General comment already exists", slog.String("body", body))
 				return nil
 			}
 		}
+		if resp == nil || resp.NextPage == 0 {
+			break
+		}
+		issueOpts.Page = resp.NextPage
 	}
+	listCancel()
 
 	comment := github.IssueComment{
 		Body: github.Ptr(body),
@@ -420,7 +456,7 @@ func (gr GithubReporter) generalComment(ctx context.Context, body string) error 
 	reqCtx, cancel := gr.reqContext(ctx)
 	defer cancel()
 
-	_, _, err = gr.client.Issues.CreateComment(reqCtx, gr.owner, gr.repo, gr.prNum, &comment)
+	_, _, err := gr.client.Issues.CreateComment(reqCtx, gr.owner, gr.repo, gr.prNum, &comment)
 	return err
 }
 
